@@ -41,6 +41,7 @@ from gen import cprog  # noqa: E402
 CORPUS = os.path.join(common.VERIF, "corpus", "C10")
 GCC = "gcc -std=c11 -pedantic-errors -fsyntax-only"
 CLANG = "clang-14 -std=c11 -pedantic-errors -fsyntax-only"
+FID_COND_CONST_LVALUE = "cond-const-lvalue"
 DIAG_ANY = re.compile(r"^[^:\n]+:\d+:\d+: error: \S|^[^:\n ]+: \S", re.M)
 
 
@@ -70,7 +71,7 @@ class Batch:
         for i, t in enumerate(texts):
             with open(os.path.join(d, "%d.c" % i), "wb") as f:
                 f.write(t if isinstance(t, bytes) else t.encode("utf-8"))
-        script = 'for f; do timeout 60 $CMD "$f" >/dev/null 2>"$f.err"; echo "$f $?"; done'
+        script = 'for f; do timeout 30 $CMD "$f" >/dev/null 2>"$f.err"; echo "$f $?"; done'
         names = "".join(os.path.join(d, "%d.c" % i) + "\n" for i in range(len(texts)))
         r = subprocess.run(["xargs", "-P", str(common.NPROC), "-n", "24", "sh", "-c", script, "sh"],
                            input=names, stdout=subprocess.PIPE, stderr=subprocess.PIPE, text=True,
@@ -87,9 +88,12 @@ class Batch:
             c = rc[f]
             with open(f + ".err", "rb") as g:
                 err = g.read(4000).decode("utf-8", "replace")
-            if c == 124:      # timeout under load: once more, alone
-                p = subprocess.run(cmd.split() + [f], stdout=subprocess.DEVNULL, stderr=subprocess.PIPE)
-                c, err = p.returncode, p.stderr.decode("utf-8", "replace")[:4000]
+            if c == 124:      # timeout under load: once more, alone; a second timeout is a result (a hang)
+                try:
+                    p = subprocess.run(cmd.split() + [f], stdout=subprocess.DEVNULL, stderr=subprocess.PIPE, timeout=60)
+                    c, err = p.returncode, p.stderr.decode("utf-8", "replace")[:4000]
+                except subprocess.TimeoutExpired:
+                    c, err = 124, "timeout: no result within 60 s"
             res.append((c, err))
         self.runs += len(texts)
         shutil.rmtree(d, True)
@@ -99,7 +103,10 @@ class Batch:
 def one(cmd, text, path):
     with open(path, "wb") as f:
         f.write(text if isinstance(text, bytes) else text.encode("utf-8"))
-    p = subprocess.run(cmd.split() + [path], stdout=subprocess.DEVNULL, stderr=subprocess.PIPE)
+    try:
+        p = subprocess.run(cmd.split() + [path], stdout=subprocess.DEVNULL, stderr=subprocess.PIPE, timeout=120)
+    except subprocess.TimeoutExpired:
+        return 124, "timeout: no result within 120 s"
     rc = p.returncode if p.returncode >= 0 else 128 - p.returncode       # as a shell reports a signal
     return rc, p.stderr.decode("utf-8", "replace")
 
@@ -887,7 +894,35 @@ def m_incdec_incomplete(L, rng):
     return L[:i] + ["\t" + d + " " + op] + L[i:], "++/-- on a pointer to an incomplete or function type: %s %s" % (d, op)
 
 
+def m_variadic_too_few(L, rng):
+    c = _body_starts(L)
+    blanks = [i for i, ln in enumerate(L) if ln == ""]
+    if not c or not blanks:
+        return None
+    n = rng.choice([1, 2, 3])
+    decl = "int c10_vf(%s, ...);" % ", ".join(["int"] * n)
+    call = "\t(void)c10_vf(%s);" % ", ".join(["1"] * rng.randrange(n))
+    i = rng.choice([x for x in c if x > blanks[0]] or c)
+    return L[:blanks[0]] + [decl] + L[blanks[0]:i] + [call] + L[i:], \
+        "call of a variadic function with fewer arguments than named parameters: %s %s" % (decl, call.strip())
+
+
+def m_addr_rvalue(L, rng):
+    c = _body_starts(L)
+    blanks = [i for i, ln in enumerate(L) if ln == ""]
+    if not c or not blanks:
+        return None
+    k = rng.choice(["struct", "union"])
+    decl = "%s c10_rs { int c10_a; double c10_b; }; %s c10_rs c10_rf(void); %s c10_rs c10_r1, c10_r2;" % (k, k, k)
+    e = rng.choice(["c10_rf()", "(1 ? c10_r1 : c10_r2)", "(c10_r1 = c10_r2)", "(0, c10_r1)"])
+    i = rng.choice([x for x in c if x > blanks[0]] or c)
+    return L[:blanks[0]] + [decl] + L[blanks[0]:i] + ["\t(void)&%s;" % e] + L[i:], "address of a %s rvalue: &%s" % (k, e)
+
+
 MUTATORS = [
+    ("variadic-too-few-args", m_variadic_too_few, [S("expr.c", "postfixexpr", "not enough arguments for function call")]),
+    ("addr-of-rvalue", m_addr_rvalue, [S("expr.c", "unaryexpr", "'&' operand is not an lvalue or function designator"),
+                                       S("expr.c", "mkunaryexpr", "'&' operand is not an lvalue or function designator")]),
     ("eq-nullconst-arith", m_eq_nullconst, [S("expr.c", "mkbinaryexpr", "invalid operands to '%s' operator")]),
     ("ptr-sub-incomplete", m_ptr_sub_incomplete, [S("expr.c", "mkbinaryexpr", "pointer operand to '-' must be to complete object type")]),
     ("incdec-incomplete", m_incdec_incomplete, [S("expr.c", "mkincdecexpr", "pointer operand of '%s' operator must be to complete object type")]),
@@ -936,6 +971,18 @@ MUTATORS = [
 CONSTRAINT_WORDS = re.compile(r"error", re.I)
 
 
+def tag_changes(old, new):
+    """mark the lines a rewrite touched (so that shrinking keeps them and a reader finds them)"""
+    import difflib
+    out = list(new)
+    for op, i1, i2, j1, j2 in difflib.SequenceMatcher(None, old, new, autojunk=False).get_opcodes():
+        if op in ("replace", "insert"):
+            for j in range(j1, j2):
+                if out[j].strip() and not out[j].lstrip().startswith("#"):
+                    out[j] += " /* c10_mut */"
+    return out
+
+
 def run_mutations(ck, bt, cc, hosts, judge, sitekeys, per_kind):
     rng = ck.rng
     jobs = []
@@ -954,7 +1001,7 @@ def run_mutations(ck, bt, cc, hosts, judge, sitekeys, per_kind):
             if r is None:
                 continue
             made += 1
-            jobs.append((name, "\n".join(r[0]) + "\n", r[1]))
+            jobs.append((name, "\n".join(tag_changes(h.lines, r[0])) + "\n", r[1]))
         st["generated"] = made
     texts = [j[1] for j in jobs]
     rg = bt.run(GCC, texts)
@@ -965,7 +1012,8 @@ def run_mutations(ck, bt, cc, hosts, judge, sitekeys, per_kind):
         name, text, what = jobs[i]
         stats[name]["gcc_and_clang_reject"] += 1
         gmsg = [ln for ln in rg[i][1].splitlines() if "error" in ln][:1]
-        fid = None
+        # `&(1 ? a : b)`: condexpr returns the selected operand itself when the condition is constant, still an lvalue
+        fid = FID_COND_CONST_LVALUE if name == "addr-of-rvalue" and "&(1 ? " in what else None
         ok = judge.result("mutation", name + ("/" + fid if fid else ""), what, "rewrite", text, r, oracle=True, fid=fid,
                           extra={"rewrite": what, "gcc": gmsg[0][-200:] if gmsg else ""})
         stats[name]["cproc_rejects"] += ok
@@ -1031,8 +1079,8 @@ def lean_build_own_tables(ck):
 # ----------------------------------------------------------------------------- main
 def run(ck):
     quick = ck.quick
-    nhosts = 4 if quick else 14
-    reps = 2 if quick else 6
+    nhosts = 4 if quick else 32
+    reps = 2 if quick else 16
     ck.cov["rule"] = (
         "K-B: every template of every class-0 entry of catalogue/c10.json (one entry per error/fatal/tokencheck/"
         "expect site of the current sources), stand-alone and at each feasible position (file, block, nested "
@@ -1041,7 +1089,7 @@ def run(ck):
         "message); gcc/clang -pedantic-errors guard the catalogue; generated unsupported-feature units; "
         "constraint-violating rewrites of valid programs (%d kinds x %d) that gcc and clang both reject.  "
         "distinct_nontrivial counts distinct (stream, site or rewrite kind, template, position)."
-        % (reps, nhosts, len(MUTATORS), 6 if quick else 40))
+        % (reps, nhosts, len(MUTATORS), 6 if quick else 200))
     lean_build_own_tables(ck)
     if not ck.proofs_ok:
         ck.notes.append("Props.C10 does not build; searching for a failing input")
@@ -1064,8 +1112,8 @@ def run(ck):
     guard_catalogue(ck, bt, cat)
     hosts = make_hosts(ck, bt, cc, nhosts)
     per_site = run_catalogue(ck, bt, cc, cat, hosts, judge, reps)
-    run_unsupported(ck, bt, cc, hosts, judge, skeys, 40 if quick else 300)
-    run_mutations(ck, bt, cc, hosts, judge, skeys, 6 if quick else 40)
+    run_unsupported(ck, bt, cc, hosts, judge, skeys, 40 if quick else 1000)
+    run_mutations(ck, bt, cc, hosts, judge, skeys, 6 if quick else 200)
 
     ck.cov["histogram"] = {
         "sites_in_source": len(sites), "catalogue_entries": len(cat["entries"]),
@@ -1078,6 +1126,17 @@ def run(ck):
         "accepted_units": judge.accepted,
     }
     ck.cov["compilations"] = bt.runs
+    ck.cov["constraints_checked_nowhere"] = [
+        "6.5.4p4 cast between a pointer and a floating type: `(double)p`, `(int *)1.5` accepted (Lean: cast_ptr_float_counterexample)",
+        "6.5.16.1p1 / 6.5.15p3 pointer to function next to pointer to void in assignment, initialisation, argument passing, ?: "
+        "`void g(void); void *p = g;` accepted (ptr_assign_accept_sound_counterexample, cond_accept_sound_counterexample); "
+        "== and != do reject it",
+        "6.5.1.1p2 two generic associations with compatible types when neither is selected: "
+        "`_Generic(1L, int: 1, T: 2, default: 0)` with `typedef int T;` accepted (generic_distinct_assocs_counterexample)",
+        "6.5.3.2p1 `&` applied to an object declared `register`; 6.7.6.3p10 `void` parameter that is named or not alone; "
+        "6.8.6.1p1 goto into the scope of a variably modified identifier",
+        "6.7.2.2 `enum E : _Bool { A = 2 };` accepted (known finding C05 enum-bool-range; enum_value_accept_sound_counterexample)",
+    ]
 
     if uncovered:
         ck.violation({"kind": "uncovered-site", "theorem": "CprocVerif.C10.sites_covered",
